@@ -179,6 +179,10 @@ let ghost h = ith.index@ as int;
                 lemma_carved_numbering(f, line_changes@, origin);
                 assert(post_deletion_new_numbering(f, line_changes@, origin)); // [Db.post.deletion_new_numbering.carved]
             }
+            if kf2_carve_out(f) {
+                lemma_removed_accounted(f, line_changes@, origin);
+                assert(post_removed_accounted(f, line_changes@, origin)); // [Db.post.surplus_deletions_reported.carved]
+            }
             assert(db_post(f, line_changes@, origin));
         }
     }
